@@ -312,11 +312,16 @@ func runC05(t failer, c c05Case) {
 				fail("partial-delivered", "a partial packet reached the handler before its bytes were complete")
 			}
 			conn.ExpireDeadline()
-			if !conn.AwaitClosed(watchdog) {
+			if !conn.AwaitQuiescentOrClosed(watchdog) {
 				if conn.UnarmedStall() {
 					fail("no-deadline-armed", "a read stalled in the middle of a packet with no read deadline armed")
 				}
-				t.Fatalf("HARNESS-BUG/INCONCLUSIVE: connection not closed after the injected timeout")
+				t.Fatalf("HARNESS-BUG/INCONCLUSIVE: connection neither closed nor reading after the injected timeout")
+			}
+			if !conn.Closed() {
+				// the read that timed out mid-packet was not treated as an error: the server reads on,
+				// with the bytes it had already consumed lost
+				fail("stall-not-an-error", "the read deadline expired in the middle of a packet and the connection was kept (the server went back to reading)")
 			}
 		case "oversize":
 			if !conn.Closed() {
